@@ -227,7 +227,7 @@ def check_line(rec, exp):
         bad.append(('target', exp['target'], outparse.label(rec['obj'])))
     if rec['name'] != exp['name']:
         bad.append(('name', exp['name'], rec['name']))
-    if rec['sent'] != exp['sent']:
+    if rec['sent'] is not None and rec['sent'] != exp['sent']:      # None: the display marks no direction
         bad.append(('direction', exp['sent'], rec['sent']))
     if len(rec['args']) != len(exp['args']):
         bad.append(('arity', len(exp['args']), len(rec['args'])))
@@ -250,6 +250,8 @@ def check_line(rec, exp):
             if outparse.label(d) != lab:
                 bad.append(('destroyed object', lab, outparse.label(d)))
             want = '%.4f' % (life_us / 1e6)
-            if d['after'] != want:
+            digits = len(d['after'].split('.')[1]) if d['after'] and '.' in d['after'] else 0
+            # one unit of the last displayed digit (the number of digits shown is presentation)
+            if d['after'] is None or abs(float(d['after']) - life_us / 1e6) > 10 ** -digits * 0.5000001 + 1e-12:
                 bad.append(('lifespan', want, d['after']))
     return bad
